@@ -301,6 +301,9 @@ func (s *c19Sys) checkPersisted(id *c19Ident) (viol []mc.Violation) {
 	}
 	cfg.res.Count("bind_with_allocation", 1)
 	cfg.res.Count("bind_with_allocation_"+id.spec.Name, 1)
+	if s.depth <= 2 {
+		cfg.res.Sample(fmt.Sprintf("%s: allocator %s; persisted resource-status=%s resource-spec=%s", id.spec.Name, id.ref, ann[extension.AnnotationResourceStatus], ann[extension.AnnotationResourceSpec]))
+	}
 	if len(id.ref.cpus) > 0 {
 		cfg.res.Count("bind_with_cpuset", 1)
 		if strings.ContainsAny(rs.CPUSet, ",") {
@@ -478,7 +481,7 @@ func c19AvailOf(rm *resourceManager, tom TopologyOptionsManager, node string) c1
 }
 
 // judge compares one rebuilt manager with the live one; where tells the delivery sequence.
-func (s *c19Sys) judge(r *c19Restart, live c19View, liveAvail c19Avail, where string, add func(key, what string)) {
+func (s *c19Sys) judge(r *c19Restart, live c19View, liveAvail c19Avail, where string, add func(key string, what func() string)) {
 	cfg := s.cfg
 	got := c19Render(r.rm.GetNodeAllocation(cfg.Node))
 	holders, policies, refNUMA := s.refHolders()
@@ -506,42 +509,53 @@ func (s *c19Sys) judge(r *c19Restart, live c19View, liveAvail c19Avail, where st
 	for uid, lp := range live.Pods {
 		gp, ok := got.Pods[uid]
 		if !ok {
-			add("rebuilt-ne-live|pod-record-missing", "an object recorded by the live scheduler is not recorded after the restart: "+uid+"\n"+ctx())
+			add("rebuilt-ne-live|pod-record-missing", func() string {
+				return "an object recorded by the live scheduler is not recorded after the restart: " + uid + "\n" + ctx()
+			})
 			continue
 		}
 		if gp.ident != lp.ident {
-			add("rebuilt-ne-live|pod-record-identity", "uid/namespace/name of the record of "+uid+" differ after the restart\n"+ctx())
+			add("rebuilt-ne-live|pod-record-identity", func() string {
+				return "uid/namespace/name of the record of " + uid + " differ after the restart\n" + ctx()
+			})
 		}
 		if gp.cpus != lp.cpus {
-			add("rebuilt-ne-live|pod-record-cpuset", "the CPU set recorded for "+uid+" differs after the restart\n"+ctx())
+			add("rebuilt-ne-live|pod-record-cpuset", func() string { return "the CPU set recorded for " + uid + " differs after the restart\n" + ctx() })
 		}
 		if gp.numa != lp.numa {
-			add("rebuilt-ne-live|pod-record-numa-amounts", "the per-NUMA amounts recorded for "+uid+" differ after the restart\n"+ctx())
+			add("rebuilt-ne-live|pod-record-numa-amounts", func() string {
+				return "the per-NUMA amounts recorded for " + uid + " differ after the restart\n" + ctx()
+			})
 		}
 		if gp.excl != lp.excl {
-			add("rebuilt-ne-live|pod-record-exclusive-policy|"+kindOf[uid]+"|"+direction(lp.excl, gp.excl),
-				fmt.Sprintf("the exclusive policy recorded for %s is %q live and %q after the restart\n%s", uid, lp.excl, gp.excl, ctx()))
+			add("rebuilt-ne-live|pod-record-exclusive-policy|"+kindOf[uid]+"|"+direction(lp.excl, gp.excl), func() string {
+				return fmt.Sprintf("the exclusive policy recorded for %s is %q live and %q after the restart\n%s", uid, lp.excl, gp.excl, ctx())
+			})
 		}
 	}
 	for uid := range got.Pods {
 		if _, ok := live.Pods[uid]; !ok {
-			add("rebuilt-ne-live|pod-record-extra", "an object is recorded after the restart that the live scheduler does not record: "+uid+"\n"+ctx())
+			add("rebuilt-ne-live|pod-record-extra", func() string {
+				return "an object is recorded after the restart that the live scheduler does not record: " + uid + "\n" + ctx()
+			})
 		}
 	}
 	for c := -1; c <= cfg.L.N; c++ {
 		if got.CPUs[c] != live.CPUs[c] {
-			add("rebuilt-ne-live|cpu-refcounts", fmt.Sprintf("CPU %d: live %q, after the restart %q\n%s", c, live.CPUs[c], got.CPUs[c], ctx()))
+			add("rebuilt-ne-live|cpu-refcounts", func() string {
+				return fmt.Sprintf("CPU %d: live %q, after the restart %q\n%s", c, live.CPUs[c], got.CPUs[c], ctx())
+			})
 			break
 		}
 	}
 	if len(got.CPUs) != len(live.CPUs) {
-		add("rebuilt-ne-live|cpu-refcounts", "a different number of CPUs is recorded after the restart\n"+ctx())
+		add("rebuilt-ne-live|cpu-refcounts", func() string { return "a different number of CPUs is recorded after the restart\n" + ctx() })
 	}
 	if got.Amounts != live.Amounts {
-		add("rebuilt-ne-live|numa-amounts", "the per-NUMA allocated amounts differ after the restart\n"+ctx())
+		add("rebuilt-ne-live|numa-amounts", func() string { return "the per-NUMA allocated amounts differ after the restart\n" + ctx() })
 	}
 	if got.Status != live.Status {
-		add("rebuilt-ne-live|numa-single-shared-status", "the single/shared NUMA node status differs after the restart\n"+ctx())
+		add("rebuilt-ne-live|numa-single-shared-status", func() string { return "the single/shared NUMA node status differs after the restart\n" + ctx() })
 	}
 	for c := 0; c < cfg.L.N; c++ {
 		lm, lok := live.Marks[c]
@@ -557,7 +571,9 @@ func (s *c19Sys) judge(r *c19Restart, live c19View, liveAvail c19Avail, where st
 			// mark after the restart is the policy of one of the current holders.
 			cfg.res.Count("diag_exclusive_mark_differs_under_sharing_limit_2(live_mark_is_last_writer_wins)", 1)
 			if !policies[c][schedulingconfig.CPUExclusivePolicy(gm)] {
-				add("rebuilt-ne-live|cpu-exclusive-mark|not-a-holders-policy", fmt.Sprintf("CPU %d is marked %q after the restart, which no current holder asked for\n%s", c, gm, ctx()))
+				add("rebuilt-ne-live|cpu-exclusive-mark|not-a-holders-policy", func() string {
+					return fmt.Sprintf("CPU %d is marked %q after the restart, which no current holder asked for\n%s", c, gm, ctx())
+				})
 			}
 			continue
 		}
@@ -572,13 +588,17 @@ func (s *c19Sys) judge(r *c19Restart, live c19View, liveAvail c19Avail, where st
 				}
 			}
 		}
-		add("rebuilt-ne-live|cpu-exclusive-mark|"+holder+"|"+direction(lm, gm), fmt.Sprintf("CPU %d is marked %q live and %q after the restart\n%s", c, lm, gm, ctx()))
+		add("rebuilt-ne-live|cpu-exclusive-mark|"+holder+"|"+direction(lm, gm), func() string {
+			return fmt.Sprintf("CPU %d is marked %q live and %q after the restart\n%s", c, lm, gm, ctx())
+		})
 	}
 	// corollary against the reference
 	av := c19AvailOf(r.rm, r.tom, cfg.Node)
 	for c, h := range holders {
 		if h >= s.maxRef() && av.set.Contains(c) {
-			add("held-cpu-free-after-restart", fmt.Sprintf("CPU %d is held by %d live object(s) (sharing limit %d) but is available after the restart (available: %s)\n%s", c, h, s.maxRef(), av.cpus, ctx()))
+			add("held-cpu-free-after-restart", func() string {
+				return fmt.Sprintf("CPU %d is held by %d live object(s) (sharing limit %d) but is available after the restart (available: %s)\n%s", c, h, s.maxRef(), av.cpus, ctx())
+			})
 			break
 		}
 	}
@@ -589,15 +609,21 @@ func (s *c19Sys) judge(r *c19Restart, live c19View, liveAvail c19Avail, where st
 			}
 			capacity := cfg.capacity(node, name)
 			if have := av.numa[node][name]; have > capacity-held {
-				add("held-numa-amount-free-after-restart", fmt.Sprintf("NUMA node %d %s: %dm held of %dm, yet %dm available after the restart\n%s", node, name, held, capacity, have, ctx()))
+				add("held-numa-amount-free-after-restart", func() string {
+					return fmt.Sprintf("NUMA node %d %s: %dm held of %dm, yet %dm available after the restart\n%s", node, name, held, capacity, have, ctx())
+				})
 			}
 		}
 	}
 	if av.cpus != liveAvail.cpus {
-		add("available-cpus-differ", fmt.Sprintf("available CPUs live %s, after the restart %s\n%s", liveAvail.cpus, av.cpus, ctx()))
+		add("available-cpus-differ", func() string {
+			return fmt.Sprintf("available CPUs live %s, after the restart %s\n%s", liveAvail.cpus, av.cpus, ctx())
+		})
 	}
 	if av.str != liveAvail.str {
-		add("available-numa-amounts-differ", fmt.Sprintf("available NUMA amounts live %s, after the restart %s\n%s", liveAvail.str, av.str, ctx()))
+		add("available-numa-amounts-differ", func() string {
+			return fmt.Sprintf("available NUMA amounts live %s, after the restart %s\n%s", liveAvail.str, av.str, ctx())
+		})
 	}
 }
 
@@ -641,7 +667,7 @@ func (s *c19Sys) refString() string {
 func (s *c19Sys) Invariants() (viol []mc.Violation) {
 	cfg := s.cfg
 	seen := map[string]bool{}
-	add := func(key, what string) {
+	add := func(key string, what func() string) {
 		if seen[key] {
 			return // one witness per class and state
 		}
@@ -650,7 +676,7 @@ func (s *c19Sys) Invariants() (viol []mc.Violation) {
 			cfg.res.Count("further_states_violating|"+key, 1)
 			return
 		}
-		viol = append(viol, mc.Violation{Key: "C19|numa|" + key, What: what})
+		viol = append(viol, mc.Violation{Key: "C19|numa|" + key, What: what()})
 	}
 	objs := s.survivors()
 	live := c19Render(s.rm.GetNodeAllocation(cfg.Node))
@@ -836,7 +862,7 @@ func TestVerifC19Numa(t *testing.T) {
 		}
 		res.Bounds = map[string]any{"topology": cfg.L.Name, "node_labels": cfg.NodeLabels, "max_ref_count": cfg.MaxRef, "reserved_cpus": cfg.ReservedCPUs, "identities": specs}
 		b := &mc.BFS{Res: res, Env: sub, New: func() mc.System { return c19NewSys(cfg, base) }, NumOps: len(cfg.Pods) * c19OpsPerIdent,
-			OpName: cfg.opName, MaxDepth: env.Pick(5, 7), Repeats: 0}
+			OpName: cfg.opName, MaxDepth: env.Pick(4, 6), Repeats: 0}
 		b.Run()
 		if env.Replay == "" {
 			for _, p := range cfg.Pods {
@@ -907,7 +933,7 @@ func c19TopologyOrder(env *mc.Env, base *c19Base, cfgs []*c19Cfg) {
 				seen := map[string]bool{}
 				var early []string
 				firstWhat := ""
-				s.judge(r, live, liveAvail, where, func(key, what string) {
+				s.judge(r, live, liveAvail, where, func(key string, what func() string) {
 					if seen[key] {
 						return
 					}
@@ -916,11 +942,11 @@ func c19TopologyOrder(env *mc.Env, base *c19Base, cfgs []*c19Cfg) {
 						// one class for everything that goes wrong because an object overtook the topology
 						early = append(early, key)
 						if firstWhat == "" {
-							firstWhat = what
+							firstWhat = what()
 						}
 						return
 					}
-					res.Violate(mc.Violation{Key: "C19|numa|" + key, What: what, Replay: map[string]any{"configuration": cfg.Name, "bound": s.refString(), "delivery": where}})
+					res.Violate(mc.Violation{Key: "C19|numa|" + key, What: what(), Replay: map[string]any{"configuration": cfg.Name, "bound": s.refString(), "delivery": where}})
 				})
 				if len(early) > 0 {
 					sort.Strings(early)
